@@ -273,6 +273,232 @@ def run(chk):
 
     # ---- C20.cursor: token cursors of the hand-written scanners stay inside their token vector
     from rules import c20_cursor as cc
+    # ---- C20.interval: a range validator bounds the UPPER end of the range
+    r_iv = chk.rule("C20.interval", "interval validators: a function that rejects (throws on) lo > hi for two of its integer parameters and rejects one of them against an upper limit tests the limit on hi - the end the ordering test leaves as the greater one; testing lo leaves hi unbounded (the callers then index with it)", floor=2)
+
+    def cmp_params(cond, pnames):
+        """list of (greater, smaller, strict) facts a TRUE condition states between two parameters / a parameter and something else"""
+        out = []
+        for c in walk(cond):
+            if c["k"] == "Bin" and c.get("op") in (">", ">=", "<", "<="):
+                a_, b_ = strip(c["c"][0]), strip(c["c"][1])
+                if c["op"] in ("<", "<="):
+                    a_, b_ = b_, a_
+                out.append((a_, b_, c["op"] in (">", "<")))
+        return out
+    for f in fx.fns:
+        if not f.get("body") or len(f.get("params") or []) < 3:
+            continue
+        ints = {p_["n"] for p_ in f["params"] if re.fullmatch(r"(const )?(std::)?(size_t|int|unsigned int|unsigned long|long|std::size_t)", p_.get("t") or "")}
+        if len(ints) < 3:
+            continue
+        rejects = []
+        for n in stmt_list(f["body"]):
+            if n["k"] == "If" and not n.get("else") and any(x["k"] == "Throw" for x in walk(n["then"])) and isinstance(n.get("cond"), dict) and not any(x["k"] == "Bin" and x.get("op") == "&&" for x in walk(n["cond"])):
+                rejects += [(g, s_, st, n) for g, s_, st in cmp_params(n["cond"], ints)]
+        # rejecting lo > hi (strict) leaves lo <= hi: a range; rejecting x >= limit leaves x < limit: an index bound
+        order = [(g["n"], s_["n"]) for g, s_, st, n in rejects if st and g.get("k") == "Ref" and s_.get("k") == "Ref" and g["n"] in ints and s_["n"] in ints and g["n"] != s_["n"]]
+        if len(order) != 1:
+            continue
+        lo, hi = order[0]      # rejected: lo > hi  => afterwards lo <= hi
+        limits = [(g, s_, n) for g, s_, st, n in rejects if not st and g.get("k") == "Ref" and g["n"] in (lo, hi) and not (s_.get("k") == "Ref" and s_.get("n") in (lo, hi)) and not (s_.get("k") == "Int")]
+        if not limits:
+            continue
+        for g, s_, n in limits:
+            key = "%s:%s" % (f["q"], show(s_)[:30])
+            chk.instance(r_iv, key, sample=dict(function=f["q"], rejects="%s > %s" % (lo, hi), limit_tested_on=g["n"], limit=show(s_)[:40]))
+            if g["n"] != hi:
+                chk.violation(r_iv, key, "%s rejects %s > %s and then tests the upper limit %s on %s, the smaller end: %s stays unbounded, and the callers turn the range into cell indices (out-of-bounds access instead of an exception for input that names a cell outside the grid)" % (f["q"], lo, hi, show(s_)[:40], lo, hi), f["file"], n["l"])
+
+    # ---- C20.divzero: an integer read from the deck is not used as a divisor without a zero test
+    r_dz = chk.rule("C20.divzero", "integer division / remainder whose divisor is an integer taken from deck input (DeckItem::get<int>, or an optional<int> configuration value via value()/value_or()) is evaluated only where the divisor is known to be non-zero: behind `d == 0 ||` / `d != 0 &&`, inside a branch that tested it, or after a test that leaves the function when it is zero", floor=1)
+
+    def deck_int(e):
+        for x in walk(e):
+            m_, o_ = meth(x)
+            if m_ in ("value_or", "value") and o_ is not None and "optional<int>" in (strip(o_).get("t") or "").replace("std::", ""):
+                return "optional<int>.%s()" % m_
+            if x.get("k") in ("MCall", "Call") and (x.get("fn") or "").endswith("DeckItem::get") and (x.get("targs") == ["int"] or (x.get("t") or "") in ("int", "const int &", "const int")):
+                return "DeckItem::get<int>"
+        return None
+
+    def zero_test(cond, name, want_nonzero_when):
+        """does `cond` being `want_nonzero_when` (True/False) imply name != 0 ?  recognises d != 0, d > 0, d >= 1, 0 < d, d (truth) and negations / d == 0, d <= 0, d < 1, !d"""
+        c = strip(cond)
+        if c.get("k") == "Un" and c.get("op") == "!":
+            return zero_test(c["c"][0], name, not want_nonzero_when)
+        if c.get("k") == "Ref" and c.get("n") == name:
+            return want_nonzero_when is True
+        if c.get("k") == "Bin" and c.get("op") in ("==", "!=", ">", ">=", "<", "<="):
+            a_, b_ = strip(c["c"][0]), strip(c["c"][1])
+            op = c["op"]
+            if b_.get("k") == "Ref" and b_.get("n") == name and a_.get("k") == "Int":
+                a_, b_ = b_, a_
+                op = {"<": ">", ">": "<", "<=": ">=", ">=": "<="}.get(op, op)
+            if a_.get("k") == "Ref" and a_.get("n") == name and b_.get("k") == "Int":
+                v = b_["v"]
+                nonzero_if_true = (op == "!=" and v == 0) or (op == ">" and v >= 0) or (op == ">=" and v >= 1) or (op == "<" and v <= 0) or (op == "<=" and v <= -1)
+                nonzero_if_false = (op == "==" and v == 0) or (op == "<=" and v == 0) or (op == "<" and v == 1) or (op == ">=" and v == 0 and False)
+                return nonzero_if_true if want_nonzero_when else nonzero_if_false
+        if c.get("k") == "Bin" and c.get("op") == "&&" and want_nonzero_when:
+            return zero_test(c["c"][0], name, True) or zero_test(c["c"][1], name, True)
+        if c.get("k") == "Bin" and c.get("op") == "||" and not want_nonzero_when:
+            return zero_test(c["c"][0], name, False) or zero_test(c["c"][1], name, False)
+        return False
+    for f in fx.fns:
+        if not f.get("body"):
+            continue
+        defs = {}
+        for n in walk(f["body"]):
+            if n["k"] == "Decl":
+                for v in n["vars"]:
+                    if isinstance(v.get("init"), dict):
+                        defs.setdefault(v["n"], []).append(v["init"])
+        parent = None
+        for b in walk(f["body"]):
+            if b["k"] != "Bin" or b.get("op") not in ("%", "/", "%=", "/="):
+                continue
+            d = strip(b["c"][1])
+            if "double" in (d.get("t") or "") or "float" in (d.get("t") or ""):
+                continue
+            name = d.get("n") if d.get("k") == "Ref" else None
+            src = deck_int(defs[name][0]) if name and len(defs.get(name, [])) == 1 else (deck_int(d) if not name else None)
+            if not src:
+                continue
+            if parent is None:
+                parent = {}
+                for x in walk(f["body"]):
+                    for ch in __import__("verif.tree", fromlist=["children"]).children(x):
+                        parent[id(ch)] = x
+            key = "%s:%s@%s" % (f["q"], show(b)[:40], show_line(f, b["l"]))
+            guarded = None
+            if name:
+                # walk up: short-circuit operands, enclosing branches, earlier exits in enclosing blocks
+                child, p_ = b, parent.get(id(b))
+                while p_ is not None and guarded is None:
+                    if p_["k"] == "Bin" and p_.get("op") in ("||", "&&") and p_["c"][1] is child or (p_["k"] == "Bin" and p_.get("op") in ("||", "&&") and any(x is child for x in walk(p_["c"][1])) and not any(x is child for x in walk(p_["c"][0]))):
+                        if zero_test(p_["c"][0], name, p_["op"] == "&&"):
+                            guarded = "right operand of %s after `%s`" % (p_["op"], show(p_["c"][0])[:40])
+                    if p_["k"] == "If" and isinstance(p_.get("cond"), dict):
+                        in_then = any(x is child for x in walk(p_["then"]))
+                        in_else = p_.get("else") is not None and any(x is child for x in walk(p_["else"]))
+                        if in_then and zero_test(p_["cond"], name, True):
+                            guarded = "inside `if (%s)`" % show(p_["cond"])[:40]
+                        if in_else and zero_test(p_["cond"], name, False):
+                            guarded = "in the else branch of `if (%s)`" % show(p_["cond"])[:40]
+                    if p_["k"] == "Cond":
+                        if child is p_["c"][1] and zero_test(p_["c"][0], name, True):
+                            guarded = "true arm of ?: on `%s`" % show(p_["c"][0])[:40]
+                        if child is p_["c"][2] and zero_test(p_["c"][0], name, False):
+                            guarded = "false arm of ?: on `%s`" % show(p_["c"][0])[:40]
+                    if p_["k"] == "Block":
+                        for s_ in p_["c"]:
+                            if s_ is child or any(x is child for x in walk(s_)):
+                                break
+                            if s_["k"] == "If" and not s_.get("else") and isinstance(s_.get("cond"), dict) and zero_test(s_["cond"], name, False) and any(x["k"] in ("Return", "Throw", "Continue", "Break") for x in stmt_list(s_["then"])[-1:]):
+                                guarded = "after `if (%s)` left the block" % show(s_["cond"])[:40]
+                    child, p_ = p_, parent.get(id(p_))
+            chk.instance(r_dz, key, sample=dict(function=f["q"], expr=show(b)[:80], divisor_from=src, guard=guarded))
+            if not guarded:
+                chk.violation(r_dz, key, "%s evaluates `%s` where the divisor comes from deck input (%s) and nothing on the way tests it against zero: a deck that sets it to 0 kills the process with SIGFPE instead of raising an exception" % (f["q"], show(b)[:80], src), f["file"], b["l"])
+
+    # ---- C20.include: what is pushed on, and what points into, the parser's input stack
+    r_in = chk.rule("C20.include", "the parser's input stack: (a) the INCLUDE handler loads a file only after a throwing test that the same path is not already on the stack (no unbounded recursion); (b) the end-of-file pop in ParserState::done advances a counter, and every site that extends the record view (update_record_buffer: a string_view into ONE file's text) compares that counter with the value saved when the record began and throws on a difference", floor=3)
+    ps_fns = [f for f in fx.fns if f["file"].endswith("Parser/Parser.cpp") and f.get("body")]
+    loaders = []
+    for f in ps_fns:
+        pm = None
+        for c in walk(f["body"]):
+            m_, o_ = meth(c)
+            if m_ == "loadFile" and c.get("a") and not (f.get("cls") or "").endswith("ParserState") and any(meth(x)[0] == "getIncludeFilePath" for x in walk(f["body"])):
+                loaders.append((f, c))
+    if not loaders:
+        raise core.AnalysisBroken("C20.include: the INCLUDE handler (loadFile of a getIncludeFilePath result) was not found in Parser.cpp")
+
+    def reads_stack(q, depth=0, seen=None):
+        seen = seen or set()
+        if q in seen or depth > 3:
+            return False
+        seen.add(q)
+        for g in by_q.get(q, []):
+            if not g.get("body"):
+                continue
+            for x in walk(g["body"]):
+                if x["k"] == "Mem" and x.get("n") in ("input_stack", "c") and "Stack" in ((x.get("t") or "") + (x.get("cls") or "")) or (x["k"] == "Mem" and x.get("n") == "input_stack"):
+                    return True
+                if x["k"] in ("MCall", "Call") and x.get("fn") and reads_stack(x["fn"], depth + 1, seen):
+                    return True
+        return False
+    for f, c in loaders:
+        arg = show(strip(c["a"][0]))
+        tests = []
+        for n in walk(f["body"]):
+            if n["k"] == "If" and n.get("l", 0) <= c["l"] and isinstance(n.get("cond"), dict) and any(x["k"] == "Throw" for x in walk(n["then"])):
+                for x in walk(n["cond"]):
+                    if x["k"] == "MCall" and (x.get("cls") or "").endswith("ParserState") and x.get("a") and show(strip(x["a"][0])) == arg and reads_stack(x.get("fn")):
+                        tests.append((n, x))
+        key = "%s:loadFile(%s)" % (f["q"].split("::")[-1], arg[:40])
+        chk.instance(r_in, key, sample=dict(function=f["q"], loads=arg, open_test=[show(t[1])[:60] for t in tests]))
+        if not tests:
+            chk.violation(r_in, key, "%s pushes the file `%s` on the input stack without first testing (and rejecting) that it is already being read: a file that includes itself, directly or through others, is read for ever" % (f["q"], arg), f["file"], c["l"])
+    dn = [f for f in ps_fns if f["q"].endswith("ParserState::done")]
+    if len(dn) != 1:
+        raise core.AnalysisBroken("ParserState::done not found")
+    counters = set()
+    pops = 0
+    for n in walk(dn[0]["body"]):
+        if n["k"] in ("While", "For", "If", "Block"):
+            st = stmt_list(n.get("body") or n.get("then") or n)
+            if any(meth(x)[0] == "pop" for s_ in st for x in walk(s_)):
+                pops += 1
+                for s_ in st:
+                    for x in walk(s_):
+                        if x["k"] == "Un" and "++" in (x.get("op") or ""):
+                            for y in walk(x["c"][0]):
+                                if y["k"] == "Mem":
+                                    counters.add(y["n"])
+                        if x["k"] == "Bin" and x.get("op") == "+=" :
+                            for y in walk(x["c"][0]):
+                                if y["k"] == "Mem":
+                                    counters.add(y["n"])
+    chk.instance(r_in, "done:counter", sample=dict(pop_sites=pops, counters=sorted(counters)))
+    if not pops:
+        raise core.AnalysisBroken("ParserState::done: the end-of-file pop was not recognised")
+    if not counters:
+        chk.violation(r_in, "done:counter", "ParserState::done pops a finished file without advancing a file counter: code holding a string_view into the popped file's text (the record buffer) cannot tell that the next line comes from another buffer", dn[0]["file"], dn[0]["l"])
+    n_sites = 0
+    for f in ps_fns:
+        pm = {}
+        for x in walk(f["body"]):
+            for ch in __import__("verif.tree", fromlist=["children"]).children(x):
+                pm[id(ch)] = x
+        for c in walk(f["body"]):
+            if c["k"] == "Call" and (c.get("fn") or "").endswith("update_record_buffer"):
+                n_sites += 1
+                # innermost enclosing lambda or the function body
+                scope, p_ = f["body"], pm.get(id(c))
+                while p_ is not None:
+                    if p_["k"] == "Lambda":
+                        scope = p_["body"]
+                        break
+                    p_ = pm.get(id(p_))
+                ok = False
+                for n in walk(scope):
+                    if n["k"] == "If" and n.get("l", 0) <= c["l"] and any(x["k"] == "Throw" for br in (n["then"], n.get("else")) if br for x in walk(br)):
+                        cond_chain = [n["cond"]]
+                        if any(y["k"] == "Mem" and y.get("n") in counters for cnd in cond_chain for y in walk(cnd)):
+                            ok = True
+                    if n["k"] == "If" and n.get("else") is not None and n["else"].get("k") == "If":
+                        e2 = n["else"]
+                        if e2.get("l", 0) <= c["l"] and any(x["k"] == "Throw" for x in walk(e2["then"])) and any(y["k"] == "Mem" and y.get("n") in counters for y in walk(e2["cond"])):
+                            ok = True
+                key = "extend@%s" % show_line(f, c["l"])
+                chk.instance(r_in, key, sample=dict(function=f["q"], call=show(c)[:70], file_switch_tested=ok))
+                if not ok:
+                    chk.violation(r_in, key, "%s extends the record view with update_record_buffer without comparing the file counter of ParserState::done (%s) with the value saved when the record began: when an include file ends inside a record the next line lies in another buffer and the view spans unrelated memory" % (f["q"], sorted(counters) or "none"), f["file"], c["l"])
+    if not n_sites:
+        raise core.AnalysisBroken("no call of update_record_buffer found in Parser.cpp")
+
     r_cu = chk.rule("C20.cursor", "token cursors (an index compared with V.size(), used in V[idx] and advanced by the code): every V[idx] is preceded on every path by a test that establishes idx < V.size() since the last advance; where the end is tested with equality the cursor is never advanced from a state that may already be the end", floor=40)
     n_cursors = 0
     for f in fx.fns:
